@@ -46,7 +46,7 @@ func c17Rules(tier string) []Rule {
 		dra     = "scheduling/dynamicresources."
 		try     = "(*" + dra + "allocator).tryDevice"
 	)
-	reserved := `phi\(nil\|phi\(append\(.*\)\|phi↺\)\)`
+	reserved := `phi\(nil\|phi\(phi↺\|append\(.*\)\)\)`
 	hasCompat := `phi\(false\|phi\(true\|phi↺\)\)`
 	return []Rule{
 		// ---- (1) who writes reservation state
@@ -186,7 +186,7 @@ func c17Rules(tier string) []Rule {
 			G(`+^\$1\.Template$`, `-^\$0\.InflightClusterAllocations\[\$1\]#1$`, `-^\(apim/util/sets\.Set\[scheduling/dynamicresources\.InstanceTypeID\]\)\.Has\(\$0\.InflightClusterAllocations\[\$1\]#0\.InstanceTypes, \$3\)$`),
 			G(`-^\$1\.Template$`, `-^\$0\.InflightTemplateAllocations\[.*\]#1$`, `-^\$0\.InflightTemplateAllocations\[.*\]#0\[\$3\]#1$`, `-^\(apim/util/sets\.Set\[scheduling/dynamicresources\.DeviceID\]\)\.Has\(\$0\.InflightTemplateAllocations\[.*\]#0\[\$3\]#0, \$1\)$`),
 		), Note: "free ⇒ not preallocated, and no record, or a record of this NodeClaim for other instance types only"},
-		POST{ID: "C17.POST10", Fn: "(*" + dra + "AllocationTracker).Commit", From: `^call \(\*scheduling/dynamicresources\.AllocationTracker\)\.insertAllocation\(\$0, \$0\.InflightClusterAllocationsByNodeClaim, `,
+		POST{ID: "C17.POST10", Fn: "(*" + dra + "AllocationTracker).Commit", From: `^call (\(\*scheduling/dynamicresources\.AllocationTracker\)\.insertAllocation\(\$0, |scheduling/dynamicresources\.insertAllocation\()\$0\.InflightClusterAllocationsByNodeClaim, `,
 			Must: []string{`^mapupdate \$0\.InflightClusterAllocations\[.*\] = &local<scheduling/dynamicresources\.InflightAllocationMetadata>$`,
 				`^call \(apim/util/sets\.Set\[scheduling/dynamicresources\.InstanceTypeID\]\)\.Insert\(\$0\.InflightClusterAllocations\[.*\]#0\.InstanceTypes, `},
 			Note: "every committed exclusive device gets (or extends) its in-flight record"},
